@@ -1,6 +1,7 @@
 package main
 
 import (
+	"math"
 	"fmt"
 	"go/types"
 	"reflect"
@@ -738,6 +739,12 @@ func (e *Engine) yamlDecodeScalar(nt types.Type, sv *StructVal, slot *Value) Ifa
 			assign(slot, IfaceVal{typ: types.Typ[types.Int], val: mkInt(int64(v))})
 		case int64:
 			assign(slot, IfaceVal{typ: types.Typ[types.Int64], val: mkInt(v)})
+		case uint64:
+			if v <= math.MaxInt64 {
+				assign(slot, IfaceVal{typ: types.Typ[types.Uint64], val: mkInt(int64(v))})
+			} else {
+				assign(slot, IfaceVal{typ: types.Typ[types.Uint64], val: U64Val{v}})
+			}
 		case float64:
 			assign(slot, IfaceVal{typ: types.Typ[types.Float64], val: FloatVal{v}})
 		case string:
